@@ -11,7 +11,7 @@ INFO = {
                "new entry is added unconditionally and last (so it shadows, and is never overwritten by, an older "
                "entry of the same name); with_inupt makes [old input] ++ [old parents] the new parent chain, "
                "unconditionally; set/define evaluate their body in the derived context and their name/value "
-               "arguments in the incoming one; the pipe threads each stage's value through with_inupt. The --set stage is the outermost stage of the pipeline, so --set bindings are in scope for --split-by, --filter and every --select. Every Clone impl of the data types is field-wise; a --set macro keeps the getter parsed from its body; Context::build is the object of the selections whenever there are selections.",
+               "arguments in the incoming one; the pipe threads each stage's value through with_inupt. The --set stage is the outermost stage of the pipeline, so --set bindings are in scope for --split-by, --filter and every --select. Every Clone impl of the data types is field-wise; a --set macro keeps the getter parsed from its body; Context::build is the object of the selections whenever there are selections. The scope of variables and of macros is a keyed map whose insert replaces (or a sequence searched from its newest entry), so an inner binding shadows an outer one of the same name.",
     "not_decided": "The lookup semantics of :n / @n / ^ on run-time values (substitution equivalence as a whole).",
     "trusted": ["sa/tables/context_frame.toml", "std collections: push/insert add, clone copies"],
 }
